@@ -222,16 +222,16 @@ CHECKS = {
         ],
     },
     "C10": {
-        "bounds": {"quick": "metrics kernel: 2 goroutines, each one RecordTokenization with a symbolic query size (0..999) and symbolic error flag, every interleaving at sync/atomic and mutex granularity with at most 2 preemptions; 2 goroutines RecordParse / RecordPoolGet / RecordPoolPut with symbolic statement counts; after quiescence operations, errors, bytes, min, max, statements, pool counters and the error map equal the true values; library state: 2 goroutines each running one of {gosqlx.Parse, metrics.RecordTokenization+GetStats (successful and failing tokenizations, iterating the error breakdown), errors.SuggestKeyword (suggestion cache), ast.SetSpan/GetSpan (span table), pooled tokenizer Get/Tokenize/Put} (symbolic choice), every interleaving at sync/atomic and mutex granularity with at most 2 preemptions: each call returns what it returns alone, and a happens-before monitor (vector clocks over go/Wait, mutex, atomic, Once and Pool edges) finds no unordered conflicting pair among all loads, stores and map operations of the target code",
+        "bounds": {"quick": "metrics kernel: 2 goroutines, each one RecordTokenization with a symbolic query size (0..999) and symbolic error flag, every interleaving at sync/atomic and mutex granularity with at most 2 preemptions; 2 goroutines RecordParse / RecordPoolGet / RecordPoolPut with symbolic statement counts; after quiescence operations, errors, bytes, min, max, statements, pool counters and the error map equal the true values; library state: 2 goroutines each running one of {gosqlx.Parse, metrics.RecordTokenization+GetStats (successful and failing tokenizations, iterating the error breakdown), errors.SuggestKeyword (suggestion cache), ast.SetSpan/GetSpan (span table), pooled tokenizer Get/Tokenize/Put, ParseWithContext cancelled while tokenizing} (symbolic choice), every interleaving at sync/atomic and mutex granularity with at most 2 preemptions: each call returns what it returns alone, and a happens-before monitor (vector clocks over go/Wait, mutex, atomic, Once and Pool edges) finds no unordered conflicting pair among all loads, stores and map operations of the target code",
                    "thorough": "3 goroutines for the metrics kernel; the 2-goroutine mix over all 8 operations (adds Validate, Format, security scan); 3 goroutines over {metrics, suggestion cache, span table}"},
         "outside": "REDUCED CLAIM. Not claimed: N up to 4x cores goroutines and arbitrary mixes (2-3 goroutines, one operation each, from the listed menu); schedules with more than 2 preemptions; races inside intrinsics' own state (sync.Pool internals, strings.Builder, fmt) and on whole-struct copies versus field writes (the monitor tracks the addressed cell); linting and extraction in the mix (their state is per call; isolation of instances is what C08/C09 establish sequentially); the Go memory model beyond sequentially consistent atomics",
         "assumptions": ["sequentially consistent atomics; scheduling points = sync/atomic operations, mutex operations, goroutine exit"],
         "runs": [
             {"pkg": "pkg/metrics", "harness": "VxC10_Metrics2", "tiers": ["quick", "thorough"], "engine_only_asserts": ["C10.operations", "C10.errors", "C10.bytes", "C10.min", "C10.max", "C10.error_map"], "expect_asserts": ["C10.bytes", "C10.min", "C10.max"]},
             {"pkg": "pkg/metrics", "harness": "VxC10_ParsePool2", "tiers": ["quick", "thorough"], "engine_only_asserts": ["C10.parse_ops", "C10.statements", "C10.pool"], "expect_asserts": ["C10.statements"]},
-            {"pkg": "pkg/sql/security", "harness": "VxC10_Race2", "tiers": ["quick"], "engine_only_asserts": ["C10.race", "C10.same_as_alone"], "expect_asserts": ["C10.same_as_alone"]},
-            {"pkg": "pkg/sql/security", "harness": "VxC10_Race2All", "tiers": ["thorough"], "engine_only_asserts": ["C10.race", "C10.same_as_alone"], "expect_asserts": ["C10.same_as_alone"], "thorough": {"timeout": 7200}},
-            {"pkg": "pkg/sql/security", "harness": "VxC10_Race3", "tiers": ["thorough"], "engine_only_asserts": ["C10.race", "C10.same_as_alone"], "thorough": {"timeout": 7200}},
+            {"pkg": "pkg/sql/security", "harness": "VxC10_Race2", "tiers": ["quick"], "engine_only_asserts": ["C10.race", "C10.same_as_alone", "pool_double_put"], "generic": ["pool_double_put"], "expect_asserts": ["C10.same_as_alone"]},
+            {"pkg": "pkg/sql/security", "harness": "VxC10_Race2All", "tiers": ["thorough"], "engine_only_asserts": ["C10.race", "C10.same_as_alone", "pool_double_put"], "generic": ["pool_double_put"], "expect_asserts": ["C10.same_as_alone"], "thorough": {"timeout": 7200}},
+            {"pkg": "pkg/sql/security", "harness": "VxC10_Race3", "tiers": ["thorough"], "engine_only_asserts": ["C10.race", "C10.same_as_alone", "pool_double_put"], "generic": ["pool_double_put"], "thorough": {"timeout": 7200}},
             {"pkg": "pkg/metrics", "harness": "VxC10_Metrics3", "tiers": ["thorough"], "engine_only_asserts": ["C10.operations", "C10.errors", "C10.bytes", "C10.min", "C10.max", "C10.error_map"], "thorough": {"timeout": 7200}},
         ],
     },
